@@ -439,31 +439,8 @@ func ExploreConsensus(c *core.Ctx, fam ConsFamilies, rep Report) {
 func exploreStage(c *core.Ctx, fam ConsFamilies, rep Report, cfgs []Config, pitem *int) (capHit bool) {
 	item := *pitem
 	defer func() { *pitem = item }()
-	for _, g := range fam.All {
-		_, capped := GenAll(g, 3, func(d *lref.DAG) {
-			item++
-			if !c.Mine(item) || c.OutOfBudget() {
-				return
-			}
-			CheckDAG(c, d, fmt.Sprintf("F-all/F-fork weights=%v N=%d forks<=%d", g.Weights, g.N, g.ForkBudget), rep, cfgs[item%len(cfgs)], 50000)
-			if item%4001 == 1 {
-				c.Sample(map[string]interface{}{"dag": d.String(), "parents_first_orders": CountOrders(d, 200000)})
-			}
-		})
-		if capped {
-			capHit = true
-		}
-	}
-	for _, r := range fam.Rounds {
-		r := r
-		GenRounds(r, func(i int) bool { return c.Mine(i) && !c.OutOfBudget() }, func(d *lref.DAG, desc string) {
-			item++
-			CheckDAG(c, d, fmt.Sprintf("F-round weights=%v R=%d %s", r.W.W, r.R, desc), rep, cfgs[item%len(cfgs)], 50000)
-			if item%301 == 1 {
-				c.Sample(map[string]interface{}{"dag": d.String(), "family": desc, "parents_first_orders": CountOrders(d, 200000)})
-			}
-		})
-	}
+	// richest families first (corpus, sleepers, rounds, then the small complete enumerations): if the wall-clock
+	// budget is hit on a loaded machine, it cuts the DAGs that are least likely to matter
 	if !fam.NoCorpus && (len(fam.Sleepers) > 0 || len(fam.Rounds) > 0) {
 		cd, cn := CorpusDAGs()
 		for i, d := range cd {
@@ -485,6 +462,31 @@ func exploreStage(c *core.Ctx, fam ConsFamilies, rep Report, cfgs []Config, pite
 				c.Sample(map[string]interface{}{"dag": d.String(), "family": desc, "parents_first_orders": CountOrders(d, 200000)})
 			}
 		})
+	}
+	for _, r := range fam.Rounds {
+		r := r
+		GenRounds(r, func(i int) bool { return c.Mine(i) && !c.OutOfBudget() }, func(d *lref.DAG, desc string) {
+			item++
+			CheckDAG(c, d, fmt.Sprintf("F-round weights=%v R=%d %s", r.W.W, r.R, desc), rep, cfgs[item%len(cfgs)], 50000)
+			if item%301 == 1 {
+				c.Sample(map[string]interface{}{"dag": d.String(), "family": desc, "parents_first_orders": CountOrders(d, 200000)})
+			}
+		})
+	}
+	for _, g := range fam.All {
+		_, capped := GenAll(g, 3, func(d *lref.DAG) {
+			item++
+			if !c.Mine(item) || c.OutOfBudget() {
+				return
+			}
+			CheckDAG(c, d, fmt.Sprintf("F-all/F-fork weights=%v N=%d forks<=%d", g.Weights, g.N, g.ForkBudget), rep, cfgs[item%len(cfgs)], 50000)
+			if item%4001 == 1 {
+				c.Sample(map[string]interface{}{"dag": d.String(), "parents_first_orders": CountOrders(d, 200000)})
+			}
+		})
+		if capped {
+			capHit = true
+		}
 	}
 	return capHit
 }
